@@ -211,6 +211,19 @@ Lemma gn_INewAxis f c tail adv :
   match c with Numpy _ (_ :: _ :: _) _ => False | _ => True end ->
   gn (S f) c (INewAxis :: tail) adv = do r <- gn f c tail adv; Ok (Regular r 1 (clen r)).
 Proof. destruct c as [dt [|n [|m sh]] data| | | | | | | | | | | |]; try contradiction; intros _; reflexivity. Qed.
+Lemma gn_IEllipsis f c tail adv :
+  match c with Numpy _ (_ :: _ :: _) _ => False | _ => True end ->
+  gn (S f) c (IEllipsis :: tail) adv =
+  let (mn, mx) := minmax (type_of c) in
+  let d := dim_items tail in
+  match tail with
+  | [] => Ok c
+  | _ =>
+      if (mn - 1 =? d) && (mx - 1 =? d) then gn f c tail adv
+      else if (mn - 1 =? d) || (mx - 1 =? d) then Err EValue
+      else gn f c (IRange None None (Some 1) :: IEllipsis :: tail) adv
+  end.
+Proof. destruct c as [dt [|n [|m sh]] data| | | | | | | | | | | |]; try contradiction; intros _; reflexivity. Qed.
 Lemma gn_numpy1 f dt n data head tail adv :
   positional head = true ->
   gn (S f) (Numpy dt [n] data) (head :: tail) adv = Err EValue.
